@@ -696,8 +696,9 @@ I_Connect ==
 
 \* the controlled agent moves on to Completed once the nominated pair is confirmed
 I_Complete ==
-    /\ Answerer /\ iceT = "Connected" /\ peerAlive /\ ~IsDirect
-    /\ iceT' = "Completed"
+    /\ Answerer /\ iceT \in IceUp /\ peerAlive /\ ~IsDirect
+    \* (the agent re-publishes an up state now and then; the loops see a change each time)
+    /\ iceT' = IF iceT = "Connected" THEN "Completed" ELSE "Connected"
     /\ UNCHANGED <<sock, peerAlive>> /\ UNCHANGED EUnch
 
 I_Disconnect ==
@@ -834,7 +835,7 @@ Fairness ==
     /\ WF_vars(S_Start \/ S_DtlsUp \/ S_Established \/ S_ChanOpen \/ S_Closed \/ S_DtlsGone \/ S_Abort \/ S_PeerSilent
                \/ S_InputClosed)
     /\ WF_vars(T_DirectEnd)
-    /\ WF_vars(I_Connect \/ I_Complete \/ I_Disconnect \/ I_Fail)
+    /\ WF_vars(I_Connect \/ I_Disconnect \/ I_Fail)
     /\ WF_vars(\E k \in 1..3 : A_Close1(k) \/ A_Close2(k) \/ A_Close3(k) \/ A_Close4(k) \/ A_Close5(k))
     /\ WF_vars(InnerDrop \/ AbortTracked)
     /\ WF_vars(R_WaitConnected)
